@@ -63,7 +63,12 @@ class PaneBase:
         custom: t.Optional[IntoConverterHandlers] = None,
         **kwargs: t.Any,
     ):
-        old_params = getattr(cls, '__parameters__', ())
+        if '__parameters__' in cls.__dict__:
+            # subscripted class (`G[T]`): the parameters which remain were worked out for it
+            old_params = cls.__dict__['__parameters__']
+        else:
+            # the parameters of every base (an attribute lookup would only see the first base's)
+            old_params = tuple(p for base in cls.__bases__ for p in getattr(base, '__parameters__', ()))
         super().__init_subclass__(*args, **kwargs)
         new_params = getattr(cls, '__parameters__', ())
         if any(t.get_origin(base) is t.Generic for base in cls.__dict__.get('__orig_bases__', ())):
